@@ -6,6 +6,8 @@ transition system of Model/Actor.lean admits, any capacity, named or not, any re
 The routing theorems quantify over every member vector, cursor and status assignment.
 -/
 import Compio.Lemmas.Group
+import Compio.Lemmas.GroupSeq
+import Compio.Lemmas.ActorSup
 import Compio.Lemmas.ActorProgress
 import Compio.Lemmas.ActorFuel
 import Compio.Lemmas.ActorLife
@@ -236,6 +238,77 @@ theorem pending_after_exit_are_stranded {cap named s} (h : Reached cap named s) 
   have := calls_accounted h
   simp [hp, hin, hc, inHand] at this
   exact this
+
+/-- Once the last handle is gone too (the channel is destroyed), every call ever issued has its answer: the
+envelopes still queued are dropped with the channel and their callers get `NoReply`. So a call can hang only
+while somebody keeps a `Mailbox`/`Broker` of the dead actor (F14: the caller of `Mailbox::call` does). -/
+theorem calls_all_answered_once_channel_destroyed {cap named s} (h : Reached cap named s)
+    (hc : s.chanAlive = false) : s.issued = s.resolved.length := by
+  obtain ⟨evs, hr⟩ := h
+  have hR : InvR s := run_induct (invR_init cap named) invR_step hr
+  have hca := calls_accounted ⟨evs, hr⟩
+  obtain ⟨ht, hin, _⟩ := hR.chan hc
+  have hh : inHand s.pc = 0 := by
+    cases hpc : s.pc <;> simp [hpc, Pc.terminal] at ht <;> simp [inHand]
+  simp [hc, hin, hh] at hca
+  exact hca
+
+/-- The destruction of the channel answers exactly the queued calls, with `NoReply`. -/
+theorem channel_destruction_answers_queued_calls (s s' : St) (hs : step s .dropSenders = some s') :
+    s'.resolved = s.resolved ++ dropCalls s.queue ∧ s'.chanAlive = false ∧ s'.pc = s.pc := by
+  simp only [step] at hs
+  step_cases hs <;> simp_all
+
+/-- An actor stops exactly once: `exited` is final, whatever anybody does afterwards. -/
+theorem exit_is_final (s s' : St) (e : Exit) (ev : Ev) (hp : s.pc = .exited e) (hs : step s ev = some s') :
+    s'.pc = .exited e ∧ s'.log = s.log ∧ s'.tok = s.tok ∧ s'.notified = s.notified := by
+  cases ev <;> simp only [step] at hs <;> step_cases hs <;> simp_all [St.obs]
+
+/-! ## 3b. Supervision notifications -/
+
+/-- What an actor tells its supervisor, for every schedule: `started` exactly once iff `post_start` succeeded,
+then -- once the task is over and it ran attached -- exactly one of `terminated` / `failed` matching its
+`ActorExit`; nothing else, nothing twice, in that order. -/
+theorem supervision_notifications {cap named s} (h : Reached cap named s) :
+    s.notified = (if startedOk s.log then [0] else []) ++ exitPart s := by
+  obtain ⟨evs, hr⟩ := h
+  exact (run_induct (P := InvN) (invN_init cap named) invN_step hr).shape
+
+/-- When the supervisor is told about the exit, the actor's name has already been released: a restart under
+the same name issued by the supervisor cannot be refused because of the old instance. -/
+theorem exit_notice_after_name_release {cap named s} (h : Reached cap named s)
+    (hn : 1 ∈ s.notified ∨ 2 ∈ s.notified) : s.tok = .unnamed ∨ s.tok = .dropped := by
+  have hs := supervision_notifications h
+  have hex : ∃ e, s.pc = .exited e := by
+    rw [hs] at hn
+    cases hpc : s.pc <;> simp [exitPart, hpc] at hn <;> (try (split at hn <;> simp at hn))
+    exact ⟨_, rfl⟩
+  obtain ⟨e, hp⟩ := hex
+  obtain ⟨evs, hr⟩ := h
+  have hk : InvK s := run_induct (invK_init cap named) invK_step hr
+  unfold InvK at hk
+  rw [hp] at hk
+  cases ht : s.tok <;> simp_all [tokOk]
+
+/-- No `started` for an actor whose `post_start` did not succeed, none at all on the detached path. -/
+theorem started_notice_iff_post_start_ok {cap named s} (h : Reached cap named s) :
+    (0 ∈ s.notified ↔ startedOk s.log = true) ∧ (s.detached = true → s.notified = []) := by
+  obtain ⟨evs, hr⟩ := h
+  have hN : InvN s := run_induct (invN_init cap named) invN_step hr
+  have hs := hN.shape
+  constructor
+  · rw [hs]
+    by_cases hok : startedOk s.log = true
+    · simp [hok]
+    · simp only [Bool.not_eq_true] at hok
+      simp only [hok, Bool.false_eq_true, if_false, List.nil_append]
+      cases hpc : s.pc <;> simp [exitPart, hpc]
+      rename_i e
+      intro _
+      cases e <;> simp [exitNote]
+  · intro hd
+    rw [hs, hN.detachedEarly hd]
+    cases hpc : s.pc <;> simp [exitPart, hpc, hd]
 
 /-! ## 4. Names -/
 
@@ -527,6 +600,46 @@ theorem send_stable_without_closed (status : α → Status) (c : Nat) (ms : List
   by_cases hne : ms = []
   · simp [hne]
   · simp [hne, Nat.mod_eq_of_lt hw]
+
+/-! ### under concurrent membership change: the group is a sequential object behind its mutex -/
+
+/-- Every `send` is routed according to the membership at its own critical section: first accepting member of
+that membership in scan order, else `Full`/`Closed`. (`join`, `Membership::drop` and `send` hold the group mutex
+for their whole body, so any concurrent history is a sequence of `GEv`; the membership used lies between the
+invocation and the response of the call.) -/
+theorem group_send_uses_current_membership (g : GState) (st : Nat → Status) (hne : g.members ≠ []) :
+    (g.stepEv (.send st)).2 = some (specOutcome st (scanOrder g.cursor g.members)) ∧
+    (g.stepEv (.send st)).1.members = specMembers st g.cursor g.members := by
+  simp [GState.stepEv, GState.send, send_characterised st g.cursor g.members hne]
+
+/-- Nothing is lost while a live non-full member exists at that moment: the send succeeds and goes to a member
+that accepts. -/
+theorem group_send_not_lost_while_available (g : GState) (st : Nat → Status) (m : Nat)
+    (hm : m ∈ g.members) (hok : st m = .ok) :
+    ∃ m', (g.stepEv (.send st)).2 = some (.delivered m') ∧ m' ∈ g.members ∧ st m' = .ok := by
+  obtain ⟨m', h1, _, h3⟩ := send_delivers_to_first_available st g.cursor g.members m hm hok
+  refine ⟨m', by simp [GState.stepEv, GState.send, h1], send_delivered_mem st g.cursor g.members m' h1, h3⟩
+
+/-- No message goes to a member that left before the send: for every history `pre ++ [leave id] ++ post` of
+joins, leaves and sends (any statuses), no send in `post` delivers to `id`; ids are never reused
+(fewer than 2^64 joins). -/
+theorem group_no_delivery_to_departed_member (pre post : List GEv) (id : Nat)
+    (hw : pre.length + 1 + post.length < usizeMod) (hid : id < (GState.runEv {} pre).1.nextId) :
+    Outcome.delivered id ∉ (((GState.runEv {} pre).1.leave id).runEv post).2 := by
+  have h0 := runEv_inv pre {} ginv_init (by simp; omega)
+  have hdep := leave_departs (GState.runEv {} pre).1 id h0.1 hid
+  have hnext : ((GState.runEv {} pre).1.leave id).nextId = (GState.runEv {} pre).1.nextId := by
+    unfold GState.leave; split <;> rfl
+  apply runEv_departed post _ id hdep
+  rw [hnext]
+  have := h0.2.2
+  simp at this
+  omega
+
+/-- Member ids stay pairwise different over any history (so "the member" is well defined). -/
+theorem group_member_ids_unique (es : List GEv) (hw : es.length < usizeMod) :
+    (GState.runEv {} es).1.members.Nodup :=
+  (runEv_inv es {} ginv_init (by simp; omega)).1.nodup
 
 end Group
 
